@@ -2327,3 +2327,13 @@ reg(_X, "aten::einsum", one_tensor, variants=[
 for _k, _n in ((1, "aten::atleast_1d"), (2, "aten::atleast_2d"), (3, "aten::atleast_3d")):
     reg(_X, _n, one_tensor, variants=[("0-d", lambda g, dt: ([g.t([], dt)], {})), ("r1", lambda g, dt: ([g.t([3], dt)], {})), ("r2", lambda g, dt: ([g.t([2, 3], dt)], {})),
                                       ("r3", lambda g, dt: ([g.t([2, 3, 2], dt)], {})), ("r4", lambda g, dt: ([g.t([2, 1, 3, 2], dt)], {})), ("size0", lambda g, dt: ([g.t([0], dt)], {}))], generic="r1")
+
+
+# ---------------------------------------------------------------------------------------------
+# extension modules (families added later live in their own files; each calls reg() on import)
+for _ext in ("c08_strata_nn", "c08_strata_misc"):
+    try:
+        __import__(f"{__package__}.{_ext}")
+    except ModuleNotFoundError as _e:
+        if _ext not in str(_e):
+            raise
